@@ -89,6 +89,7 @@ PREDICTS = {
     'C10-scala-content-key': {'sc-grammar', 'identifier', 'template'},
     'C10-swift-label': {'swift-label', 'sw-grammar'},
     'C10-python-empty-union': {'py-syntax'},
+    'C10-python-key-keyword': {'py-syntax', 'template', 'keyword'},
     'C10-python-digit-name': {'py-syntax', 'identifier', 'template'},
     'C10-digit-name': {'identifier', 'template', 'ts-grammar', 'go-grammar', 'kt-grammar', 'sw-grammar', 'sc-grammar'},
     'C10-python-generic-enum-arg': {'py-import-not-subscriptable'},
@@ -123,14 +124,14 @@ SAFE_DOCS = ['has { brace ( paren [ bracket', 'closes } ) ] nothing', "uses 'sin
              'unicode \u00e9\u4e2d ok', "it's <b>html</b> & more"]
 
 
-# (tag, content) pairs drawn from SWIFT_KEYWORDS (core/src/language/swift.rs:24).  The programs are shared by the six languages, so the
-# pool keeps clear of what the OTHER back ends cannot print: Go uses the content key verbatim as a struct field name (`import interface{}`,
-# `default interface{}`: a content key that is a Go keyword gives an ill-formed Go file - a defect of the Go back end of the kind of
-# C10-go-keyword-name, observed while following fix 29 and reported, not part of any class yet), and Python declares both keys verbatim as
-# attributes of a class (`class: Literal[..]`, `in: int`: SyntaxError; likewise observed and reported): no content key that is a Go keyword, no key that is a Python keyword.  The witness of fix 29 (`case` / `default`)
-# is judged for Swift alone in WITNESSES.
+# (tag, content) pairs drawn from SWIFT_KEYWORDS (core/src/language/swift.rs:24).  The programs are shared by the six languages: Go uses the
+# content key verbatim as a struct field name (`type interface{}`: inside the open class C10-go-keyword-name since the class covers the
+# content key), Python declares both keys verbatim as attributes of a class (`class: Literal[..]`, `in: int`: the open class
+# C10-python-key-keyword); the last three pairs are there for these two classes.
 KEYWORD_KEYS = [('case', 'let'), ('default', 'self'), ('func', 'inout'), ('struct', 'init'), ('var', 'private'), ('switch', 'where'),
-                ('enum', 'static'), ('let', 'nil'), ('type', 'guard'), ('self', 'throws')]
+                ('enum', 'static'), ('let', 'nil'), ('type', 'guard'), ('self', 'throws'),
+                # keys that are keywords of Python / Go as well: inside the open classes C10-python-key-keyword, C10-go-keyword-name (content key)
+                ('class', 'in'), ('kind', 'type'), ('from', 'import')]
 
 
 def decorate(rng, prog):
@@ -492,6 +493,19 @@ def observe(lang, text):
     return decls, labels, sorted(set(fails)), why
 
 
+def python_key_keyword_class(lang, items):
+    """class of the open finding C10-python-key-keyword, decided on the IR the REAL parser produced: Python, an adjacently tagged enum whose
+    tag key or content key is a Python keyword - write_algebraic_enum declares both keys verbatim as class attributes (`class: Literal[..]`,
+    `in: int`), while every field name goes through python_property_aware_rename (`class_: .. = Field(alias="class")`)"""
+    import keyword
+    if lang != 'python':
+        return []
+    for e in (items or {}).get('enums', []):
+        if e.get('algebraic') and (keyword.iskeyword(e.get('tag') or '') or (keyword.iskeyword(e.get('content') or '') and any(v.get('k') != 'unit' for v in e.get('variants', [])))):
+            return ['C10-python-key-keyword']
+    return []
+
+
 def kw_request(lang, decls, labels, text=None):
     decls = list(decls) + (KEYDECLS.get((lang, text)) or [])
     ds = Lst(decls, lambda d: f'({S(d[0])} {B(d[1])} {Lst(d[2], lambda m: f"({S(m[0])} {B(m[1])})")})')
@@ -549,7 +563,7 @@ def judge(chk, cases, tag):
         dom = vf.sx_get(clsa[j], 'dom') == 'true' and cfg_ok[(lang, json.dumps(cfg, sort_keys=True))]
         if not cfg_ok[(lang, json.dumps(cfg, sort_keys=True))]:
             chk.count('inadmissible_configuration')
-        known = list(vf.sx_get(clsa[j], 'known')) + list(gocls.get(k, []))
+        known = list(vf.sx_get(clsa[j], 'known')) + list(gocls.get(k, [])) + python_key_keyword_class(lang, r['ir'])
         decls, labels, fails, why = obs[k]
         fails = list(fails)
         lex = lexa[j]
@@ -759,6 +773,7 @@ WITNESSES = [
     ('go', {'package': 'p'}, '#[typeshare]\npub struct S { pub _1x: u8 }\n', 'C10-digit-name'),
     ('go', {'package': 'p'}, '#[typeshare]\n#[serde(tag = "type", content = "content")]\npub enum switch { default(String) }\n', 'C10-go-keyword-name'),
     ('go', {'package': 'p'}, '#[typeshare]\n#[serde(tag = "kind", content = "type")]\npub enum E { A(u8), B }\n', 'C10-go-keyword-name'),
+    ('python', {}, '#[typeshare]\n#[serde(tag = "class", content = "in")]\npub enum E { A(u8), B }\n', 'C10-python-key-keyword'),
     ('python', {}, '#[typeshare]\n#[serde(tag = "t", content = "c")]\npub enum G { #[serde(rename = "1a")] V(u8) }\n#[typeshare]\npub struct S { pub _1x: u8 }\n', 'C10-python-digit-name'),
     ('python', {}, '#[typeshare]\n#[serde(tag = "t", content = "c")]\npub enum G<T> { V(T) }\n#[typeshare]\npub type Al = Vec<G<u8>>;\n', 'C10-python-generic-enum-arg'),
 ]
